@@ -69,14 +69,15 @@ CFG = PropCfg(
      SuiteCfg("C07full", signature=_sig, nontrivial=_nontrivial, classify=_classify, parts_thorough=1, timeout=900)],
     rule="suite C07: a case is one history on a real HopServer (grant = AddAuthGrant, login = "
          "AuthorizeKeyAuthGrant + session in the state checkAuthorization leaves, exec = the head of startCodex: "
-         "checkCmd through the verif shim with the clock set through thunks.TimeNow, intent = checkIntent, dump = "
-         "grant map and key set) against the Lean world model; <= 6 grants and <= 10 requests per history, clocks "
+         "checkCmd through the verif shim with the clock set through thunks.TimeNow, intent = checkIntent, issue = "
+         "checkIntent + AddAuthGrant as handleIntentCommunication calls them, dump = grant map and key set) against the Lean world model; <= 6 grants and <= 10 requests per history, clocks "
          "at start/expiry -1/0/+1 s and sub-second offsets, near-miss command texts, shell/command kind mix-ups, "
          "several users and keys. suite C07e2e: real server and real clients over loopback UDP (real "
          "checkAuthorization, tube dispatch of hopSession.start, startCodex; commands replaced by /bin/true through "
          "thunks.StartCmd): granted command before/at/after start and expiry, wrong text, repeated, second login, "
-         "and every tube type x reliability in grant-admitted and key-admitted sessions (served/closed observed with "
-         "a fence tube). suite C07full: the same runner against what the *full* statement demands for port "
+         "every tube type x reliability in grant-admitted and key-admitted sessions (served/closed observed with "
+         "a fence tube), and intents communicated on a real authorization-grant tube (handleAgc, StartTargetInstance, "
+         "checkIntent, AddAuthGrant) followed by a login with the issued grant. suite C07full: the same runner against what the *full* statement demands for port "
          "forwarding / grant issuing / window-size tubes (known finding F9). distinct_nontrivial counts distinct "
          "histories in which something was started/served and something was refused/closed.",
     assumptions=["checkAuthorization, the `if usingAuthGrant` of startCodex and the tube dispatch are inline in functions "
